@@ -16,6 +16,8 @@ Decides:
   R13.6 evtx and journal message buffers end with a newline on every path (the decorated variants
         only print newline-terminated pieces, so otherwise they would drop the tail that the
         undecorated variants print).
+  R13.7 where a line is printed in pieces around the highlighted datetime, consecutive pieces are
+        contiguous sub-slices of the same line ([..a][a..b][b..]): no byte lost or repeated.
 Does not decide: exact escape bytes, unicode width of exotic names, strftime rendering.
 """
 import decide
@@ -542,6 +544,21 @@ def run(prog, rep, tier):
     rep.examined(R136, eb_.path, sample={"data_is_record_text_plus_newline": okn})
     if not okn:
         rep.violation(R136, eb_.path, "Evtx::from_evtxrs: the record text is not terminated with a newline; the prepend/colour variants print only newline-terminated pieces")
+
+    # ------------------------------------------------------------ R13.7
+    R137 = rep.rule("R13.7", "highlighted sub-slices partition their line: consecutive pieces are contiguous")
+    import slices as _sl
+    nchains = 0
+    for p in sorted(prog.facts.bodies):
+        if not p.startswith(PR + "print_") or "{closure" in p:
+            continue
+        pb_ = prog.body(p)
+        for lines_, problems in _sl.partition_chains(pb_):
+            nchains += 1
+            rep.examined(R137, "%s|chain@%s" % (p, len(lines_)), sample={"variant": p.split("::")[-1], "pieces_at_lines": lines_, "problems": problems})
+            if problems:
+                rep.violation(R137, "%s|pieces|%d" % (p, len(lines_)), "%s: %s; removing the colour escapes would not give back the line's bytes" % (p.split("::")[-1], problems[0]))
+    rep.floor(R137, 12, "(colour variants slicing their line around the datetime)")
 
     return rep.finish(
         "Static necessary-condition check of the decoration path: for all 8 flag combinations of all 4 dispatchers the selected variant writes, "
